@@ -243,6 +243,14 @@ func runC06(c *Ctx) {
 		}
 		add(c06ArrivalJob(c, i))
 	}
+	// journals split over 2-6 files whose first / last dated directive is of any kind and lives in a file other than (most of)
+	// the transactions (stream `period`): the report period is folded over the directives in file arrival order
+	for i := 0; i < c.N(72, 480); i++ {
+		if !want("period", i) {
+			continue
+		}
+		add(c06PeriodJob(c, i))
+	}
 	gomax := []string{"1", "2", "16"}
 	parallelFor(len(jobs), 8, func(q int) {
 		jb := jobs[q]
@@ -287,7 +295,7 @@ func runC06(c *Ctx) {
 			code, so, se := runKnut(c.KnutBin, 30*time.Second, env, args...)
 			jb.Runs = append(jb.Runs, c06Run{Env: env, Code: code, Stdout: so, Stderr: se})
 		}
-		if jb.Idx >= 200000 && jb.Idx < 300000 && jb.Input["files"] == nil {
+		if (jb.Idx >= 200000 && jb.Idx < 300000 || jb.Idx >= 500000) && jb.Input["files"] == nil {
 			jb.Files = nil // large trees are not kept in memory: the case is regenerated from (seed, stream, index)
 		}
 		if os.Getenv("C06_KEEP") == "" { // C06_KEEP=1: leave the case's files in the work directory (for a replay by hand)
@@ -326,9 +334,17 @@ func runC06(c *Ctx) {
 			delete(in, "layout")
 			in["files"], in["shape"] = jb.Files, jb.Input["shape"]
 		}
-		if jb.Idx >= 400000 {
+		if jb.Idx >= 400000 && jb.Idx < 500000 {
 			stream, idx = "arrival", jb.Idx-400000
 			in["files"], in["shape"] = jb.Files, jb.Input["shape"]
+		}
+		if jb.Idx >= 500000 {
+			stream, idx = "period", jb.Idx-500000
+			delete(in, "layout")
+			in["shape"] = jb.Input["shape"]
+			if jb.Input["files"] == nil {
+				delete(in, "files") // large: regenerated from (seed, stream, index); the shape says what is in them
+			}
 		}
 		sameExit, exits, firstOther := true, "", ""
 		for _, rr := range jb.Runs {
@@ -1351,4 +1367,261 @@ func c06FloatTieWeights(r *RNG, universe bool) (text, uni, shape string, args []
 	shape = fmt.Sprintf("%d classes %v of %d commodities each, commodity K<j><slot> of class j holds f x the slot's quantities at 1/f of the slot's prices (f in 1, 2, 4, 5, 10, 20); %d price dates; %d further commodities; name order permuted: %v; one account: %v",
 		ncls, classes, nslot, len(pdays), nother, permuted, oneAccount)
 	return text, uni, shape, args
+}
+
+// ---------------------------------------------------------------- stream `period`: the report period is a fold in arrival order
+//
+// balance, register, portfolio weights and portfolio returns clip their periods to journal.Builder.Period(): the minimum and
+// the maximum date over some kinds of directives (transactions on both ends, prices at the end), folded over the directives
+// in the order in which the concurrently parsed files reach the builder. The fold is a function of the input only as long as
+// every update is commutative. An update that looks at what has been seen so far ("the first transaction opens the period",
+// a kind that only counts after / before another kind, an early return) makes the first / last column, the valuation date
+// and the totals depend on the schedule (seeded change C06-i: the first transaction overwrote an end date that a later
+// dated price of a file that had arrived earlier had set).
+//
+// One case = a root and 1-5 included files (nested, sub-directories). Every file has a filler of its own — transactions
+// inside a span of 1-300 days, prices of a commodity of its own inside the span, or nothing — of 0-150 (thorough: 600)
+// directives: mixed sizes, all equal (the files race), the files with the extreme directives tiny and the others large, or
+// the other way round. On top 1-3 EXTREME directives dated before the span or after it, each of any kind (price, open,
+// assertion, transaction, close), first / somewhere / last in its file, preferably in a file without transactions, at
+// distinct distances of 1-200 days (so that which kind is THE first / last directive varies). Commands: balance (with and
+// without -v, every interval, --diff, --last, --from / --to inside and outside the span, --csv, -m, -s), register, portfolio
+// weights, portfolio returns. Amounts are integers and prices multiples of 0.25 (float sums are exact in any order); no
+// price pair is quoted twice on one date. 16 (thorough: 40) runs per case with rotating schedule seeds and GOMAXPROCS,
+// every fourth run with the natural schedule.
+func c06PeriodJob(c *Ctx, i int) *c06Job {
+	r := c.Rng("period", i)
+	day := func(off int) string {
+		return time.Date(2020, 1, 1, 0, 0, 0, 0, time.UTC).AddDate(0, 0, off).Format("2006-01-02")
+	}
+	const opened = "2018-12-31"
+	nf := r.Range(1, 5)
+	sizes := []int{0, 1, 3, 10, 40, 150}
+	if c.Thorough() {
+		sizes = append(sizes, 600)
+	}
+	span := Pick(r, []int{1, 10, 40, 100, 300})
+	type pfile struct {
+		rel    string
+		parent int
+		fill   string // tx / prices / none
+		n      int
+		blocks []string
+		ext    []string
+	}
+	files := []*pfile{{rel: "root.knut", parent: -1}}
+	for k := 1; k <= nf; k++ {
+		parent := 0
+		if r.Chance(1, 4) {
+			parent = r.Intn(k)
+		}
+		files = append(files, &pfile{rel: path.Join(Pick(r, []string{"", "", "inc", "inc/deep"}), fmt.Sprintf("f%d.knut", k)), parent: parent})
+	}
+	for _, f := range files {
+		f.fill = Pick(r, []string{"tx", "tx", "prices", "prices", "none"})
+	}
+	files[r.Intn(len(files))].fill = "tx"
+	if r.Chance(1, 2) {
+		files[0].fill = "none" // a root that is little more than a list of includes
+		files[1+r.Intn(nf)].fill = "tx"
+	}
+	// the extreme directives
+	type extreme struct {
+		off  int
+		kind string
+		file int
+		pos  string
+	}
+	var exts []extreme
+	used := map[int]bool{}
+	var noTx []int
+	for k, f := range files {
+		if f.fill != "tx" {
+			noTx = append(noTx, k)
+		}
+	}
+	// kinds: the first case of every five in a row has a late price, so that every command meets every kind
+	for q, ne := 0, r.Range(1, 3); q < ne; q++ {
+		e := extreme{kind: Pick(r, []string{"price", "price", "open", "assertion", "transaction", "close"}), pos: Pick(r, []string{"first", "middle", "last"})}
+		dist := Pick(r, []int{1, 2, 5, 20, 40, 100, 200}) + r.Intn(3)
+		for used[dist] {
+			dist++
+		}
+		used[dist] = true
+		e.off = span - 1 + dist
+		if r.Chance(1, 3) {
+			e.off = -dist
+		}
+		e.file = r.Intn(len(files))
+		if len(noTx) > 0 && r.Chance(3, 4) {
+			e.file = Pick(r, noTx)
+		}
+		exts = append(exts, e)
+	}
+	// sizes
+	mode := r.Intn(4)
+	eq := Pick(r, sizes[2:])
+	isExt := map[int]bool{}
+	for _, e := range exts {
+		isExt[e.file] = true
+	}
+	for k, f := range files {
+		f.n = Pick(r, sizes)
+		switch {
+		case mode == 1:
+			f.n = eq
+		case mode == 2 && isExt[k], mode == 3 && !isExt[k]:
+			f.n = Pick(r, sizes[:3])
+		case mode == 2 || mode == 3:
+			f.n = Pick(r, sizes[4:])
+		}
+		if f.fill == "none" {
+			f.n = 0
+		}
+		if f.fill == "tx" && f.n == 0 {
+			f.n = 1
+		}
+	}
+	// content
+	type flow struct{ off, amt int }
+	var bank []flow
+	var head strings.Builder
+	for _, a := range []string{"Assets:Bank", "Assets:Broker", "Equity:Opening", "Expenses:Misc"} {
+		fmt.Fprintf(&head, "%s open %s\n", opened, a)
+	}
+	fmt.Fprintf(&head, "%s price AAA %d CHF\n", opened, r.Range(5, 40))
+	tx := func(off, k, q int) string {
+		a := r.Range(1, 900)
+		switch r.Intn(4) {
+		case 0:
+			bank = append(bank, flow{off, -a})
+			return fmt.Sprintf("%s \"shop%d no %d\"\nAssets:Bank Expenses:Misc %d CHF\n", day(off), k, q, a)
+		case 1:
+			return fmt.Sprintf("%s \"buy%d no %d\"\nEquity:Opening Assets:Broker %d AAA\n", day(off), k, q, a)
+		default:
+			bank = append(bank, flow{off, a})
+			return fmt.Sprintf("%s \"pay%d no %d\"\nEquity:Opening Assets:Bank %d CHF\n", day(off), k, q, a)
+		}
+	}
+	aaaFile := r.Intn(len(files)) // the one file that requotes AAA inside the span
+	for k, f := range files {
+		for q := 0; q < f.n; q++ {
+			off := r.Intn(span)
+			switch f.fill {
+			case "tx":
+				f.blocks = append(f.blocks, tx(off, k, q))
+			case "prices":
+				// one quote per date and commodity: the q-th price of the file is for its commodity no q / span
+				f.blocks = append(f.blocks, fmt.Sprintf("%s price P%dx%d %d.%s CHF\n", day(q%span), k, q/span, r.Range(1, 90), Pick(r, []string{"0", "25", "5", "75"})))
+			}
+		}
+		if k == aaaFile {
+			for d := 0; d < span; d += 1 + r.Intn(40) {
+				f.blocks = append(f.blocks, fmt.Sprintf("%s price AAA %d.%s CHF\n", day(d), r.Range(5, 40), Pick(r, []string{"0", "25", "5", "75"})))
+			}
+		}
+	}
+	insert := func(f *pfile, pos string, text string) {
+		at := len(f.blocks)
+		switch pos {
+		case "first":
+			at = 0
+		case "middle":
+			at = r.Intn(len(f.blocks) + 1)
+		}
+		f.blocks = append(f.blocks[:at:at], append([]string{text}, f.blocks[at:]...)...)
+	}
+	sort.Slice(exts, func(a, b int) bool { return exts[a].off < exts[b].off })
+	for q, e := range exts {
+		text := ""
+		switch e.kind {
+		case "price":
+			text = fmt.Sprintf("%s price AAA %d.%s CHF\n", day(e.off), r.Range(5, 40), Pick(r, []string{"0", "25", "5", "75"}))
+		case "open":
+			text = fmt.Sprintf("%s open Assets:Extra%d\n", day(e.off), q)
+		case "close":
+			fmt.Fprintf(&head, "%s open Assets:Temp%d\n", opened, q)
+			text = fmt.Sprintf("%s close Assets:Temp%d\n", day(e.off), q)
+		case "transaction":
+			text = tx(e.off, e.file, 1000+q)
+		case "assertion":
+			text = "" // needs every flow: below
+		}
+		exts[q].kind = e.kind
+		files[e.file].ext = append(files[e.file].ext, fmt.Sprintf("%s %s (%s)", day(e.off), e.kind, e.pos))
+		if e.kind != "assertion" {
+			insert(files[e.file], e.pos, text)
+		}
+	}
+	for _, e := range exts {
+		if e.kind == "assertion" {
+			total := 0
+			for _, fl := range bank {
+				if fl.off < e.off {
+					total += fl.amt
+				}
+			}
+			insert(files[e.file], e.pos, fmt.Sprintf("%s balance Assets:Bank %d CHF\n", day(e.off), total))
+		}
+	}
+	relTo := func(from, to *pfile) string {
+		p, _ := filepath.Rel(path.Dir(from.rel), to.rel)
+		return p
+	}
+	for k := 1; k < len(files); k++ {
+		p := files[files[k].parent]
+		insert(p, Pick(r, []string{"first", "first", "middle", "last"}), fmt.Sprintf("include \"%s\"\n", relTo(p, files[k])))
+	}
+	files[0].blocks = append([]string{head.String()}, files[0].blocks...)
+	out := map[string]string{}
+	total := 0
+	var shape []string
+	for k, f := range files {
+		text := strings.Join(f.blocks, "\n")
+		out[f.rel] = text
+		total += len(text)
+		line := fmt.Sprintf("%s: filler %s x %d, %d bytes", f.rel, f.fill, f.n, len(text))
+		if k > 0 {
+			line += ", included by " + files[f.parent].rel
+		}
+		if k == aaaFile {
+			line += ", requotes AAA inside the span"
+		}
+		if len(f.ext) > 0 {
+			line += "; EXTREME " + strings.Join(f.ext, ", ")
+		}
+		shape = append(shape, line)
+	}
+	// the command
+	in1, in2 := day(r.Intn(span)), day(span-1+r.Range(1, 30))
+	jb := &c06Job{Idx: 500000 + i, Files: out, Mixed: true, Reps: c.N(16, 40)}
+	root := "@root.knut"
+	iv := func() string { return Pick(r, []string{"--days", "--weeks", "--months", "--quarters", "--years"}) }
+	switch i % 6 {
+	case 0:
+		fl := Pick(r, [][]string{{}, {}, {iv()}, {"--diff", iv()}, {iv(), "--last", "4"}, {"--csv"}, {"-m", "1", iv()}, {"-s", ".", "--from", in1}, {"--to", in2, iv()}})
+		jb.Kind, jb.Args = "balance", append(append([]string{"balance", "--color=false"}, fl...), root)
+	case 1, 2:
+		fl := Pick(r, [][]string{{}, {}, {iv()}, {iv()}, {"--diff", iv()}, {iv(), "--last", "3"}, {"--csv", iv()}, {"-m", "1"}, {"--from", in1, iv()}, {"--to", in2}, {"--to", in1, iv()}, {"-a", "--digits", "2", iv()}, {"--close=false", iv()}})
+		jb.Kind, jb.Args = "balance-valued", append(append([]string{"balance", "--color=false", "-v", "CHF"}, fl...), root)
+	case 3:
+		fl := Pick(r, [][]string{{}, {"-v", "CHF"}, {iv()}, {"-v", "CHF", iv()}, {"-d", iv()}, {"-a", "-s", iv()}, {"-v", "CHF", "--to", in2, iv()}, {"--last", "3", iv()}, {"-c", "--from", in1}})
+		jb.Kind, jb.Args = "register", append(append([]string{"register", "--color=false"}, fl...), root)
+	case 4:
+		fl := Pick(r, [][]string{{}, {iv()}, {iv(), "--csv"}, {iv(), "--last", "5"}, {"--to", in2, iv()}, {"--from", in1, iv(), "--digits", "4"}})
+		jb.Kind, jb.Args = "weights", append(append([]string{"portfolio", "weights", "--color=false", "-v", "CHF"}, fl...), root)
+	default:
+		fl := Pick(r, [][]string{{}, {iv()}, {iv()}, {iv(), "--last", "5"}, {"--to", in2, iv()}, {"--from", in1, iv()}})
+		jb.Kind, jb.Args = "returns", append(append([]string{"portfolio", "returns", "-v", "CHF"}, fl...), root)
+	}
+	jb.Kind += "-period"
+	var es []string
+	for _, e := range exts {
+		es = append(es, fmt.Sprintf("%s %s in %s", day(e.off), e.kind, files[e.file].rel))
+	}
+	jb.Input = map[string]any{"shape": fmt.Sprintf("transactions on %s..%s; extremes: %s; %s", day(0), day(span-1), strings.Join(es, ", "), strings.Join(shape, " | "))}
+	if total <= 12000 {
+		jb.Input["files"] = out
+	}
+	return jb
 }
